@@ -20,8 +20,9 @@ SPEC = {
         'unique_iter updates its seen-set whenever the membership guard passes. Not decided: chunk sizes/contents, window '
         'contents, agreement with str.split, chunk_ranges arithmetic, bucket contents (value-level).'
         ' T26: redundant/unique_iter/bucketize take no presence decision on a None-defaulted .get(). T9.tees: with fill, StopIteration from advancing a tee is handled inside the per-tee loop.'
-        ' T25.keyattr: the getattr(x, key, fallback) key functions of the sibling helpers agree (fallback is the element). T17 delegations are decided on the returned value of every path.'),
-    'decided': ['sibling key-function agreement', 'no presence decision on .get() None', 'per-tee StopIteration handling', 'T17 list form == list(iter form)', 'T3 one pass over the source', 'T16 yield depth in split_iter',
+        ' T25.keyattr: the getattr(x, key, fallback) key functions of the sibling helpers agree (fallback is the element). T17 delegations are decided on the returned value of every path.'
+        ' T10e: element conservation (split_iter, lstrip_iter, chunked_iter, unique_iter, bucketize).'),
+    'decided': ['element conservation', 'sibling key-function agreement', 'no presence decision on .get() None', 'per-tee StopIteration handling', 'T17 list form == list(iter form)', 'T3 one pass over the source', 'T16 yield depth in split_iter',
                 'T2 split counter paired with yields', 'T7 range end clamped / fill consulted before each yield', 'T23 first-seen idiom'],
     'declined': ['element conservation and chunk sizes as values', 'agreement with str.split/strip', 'chunk_ranges arithmetic'],
     'trusted_base': ['itertools.islice/tee/zip semantics'], 'assumptions': [], 'exhaustive': True,
